@@ -1377,6 +1377,63 @@ fn x_c08_keepalive(r: &DuoRun, wm: &WireModel, ei: &EndInfo, o: &mut Outcome) {
         }
     }
 }
+/// the local handle is dropped with a backlog that takes the link many message times to carry
+/// (a link with room for 1-2 messages, 5-50 ms each), with and without keepalive, at one endpoint
+/// or at both: everything queued before the drop still goes out, and everybody comes to an end
+fn gen_c08_backlog_drop(r: &mut Prng, _i: u64, _t: Tier) -> Plan {
+    let mut p = gen_c08_workload(r);
+    p.link.window = 1 + r.below(2);
+    p.link.latency_ms = *r.pick(&[5u64, 20, 50]);
+    p.link.bp_flush = r.chance(1, 2);
+    let x = r.below(2);
+    let both_drop = r.chance(1, 3);
+    // keepalive: nowhere, everywhere, or only at the endpoint that keeps its handle
+    let ka = r.below(3);
+    let iv = p.link.latency_ms * *r.pick(&[20u64, 40]);
+    let t = iv * *r.pick(&[1u64, 2]);
+    for (i, e) in p.eps.iter_mut().enumerate() {
+        if ka == 1 || (ka == 2 && i != x) {
+            e.keepalive_ms = [iv, t];
+        }
+    }
+    let droppers: Vec<usize> = if both_drop { vec![x, 1 - x] } else { vec![x] };
+    for ep in &droppers {
+        let n = 40 + r.below(80);
+        let items = (0..n).map(|_| DgItem { flow: r.next() as u32, hlen: r.below(10), port: r.next() as u16, len: r.below(40), yields: 0 }).collect();
+        p.dg_tx.push(DgTx { from: *ep, items });
+    }
+    // the peers' applications keep taking datagrams
+    p.dg_rx.clear();
+    for ep in 0..2 {
+        p.dg_rx.push(DgRx { ep, pace: vec![0], take: None });
+    }
+    let at = 150 + r.below(300) as u64;
+    for (k, ep) in droppers.iter().enumerate() {
+        p.faults.push(Fault { at: at + (k * r.below(12)) as u64, kind: FaultKind::DropMux { ep: *ep } });
+    }
+    p.horizon_ms = 120_000;
+    p
+}
+fn x_c08_backlog_drop(r: &DuoRun, wm: &WireModel, ei: &EndInfo, o: &mut Outcome) {
+    let lat = r.plan.link.latency_ms.max(1);
+    let in_space = !r.plan.faults.is_empty() && r.plan.faults.iter().all(|f| matches!(f.kind, FaultKind::DropMux { .. })) && r.plan.eps.iter().all(|e| e.keepalive_ms == [0, 0] || (e.keepalive_ms[0] >= 20 * lat && e.keepalive_ms[1] >= e.keepalive_ms[0]));
+    if !in_space {
+        o.violations.clear();
+        return;
+    }
+    x_c08(r, wm, ei, o);
+    let led = r.led.borrow();
+    let backlog = led.dg.sent.iter().map(|v| v.len()).max().unwrap_or(0);
+    if ei.any_fault && backlog >= 20 {
+        o.probe("drop-with-long-backlog", 1);
+        if r.plan.faults.len() > 1 {
+            o.probe("both-handles-dropped-with-backlog", 1);
+        }
+        if r.plan.eps.iter().any(|e| e.keepalive_ms[0] > 0) {
+            o.probe("drop-with-long-backlog-under-keepalive", 1);
+        }
+    }
+}
 fn nt_c08(r: &DuoRun, _wm: &WireModel, ei: &EndInfo) -> bool {
     ei.any_fault && (ei.judged[0] || ei.judged[1]) && r.steps > 20
 }
@@ -1389,9 +1446,10 @@ pub fn c08() -> Check {
             fam("chaos", 300_000, 3_000_000, gen_c08, OracleCfg::default(), Some(x_c08), nt_c08, "random close/abort workload on 1-3 streams with pending accept / get_datagram / request_bind / next_bind_request / open / parked writers and readers; at a seeded scheduling round one end cause fires: forged peer Close, cut of one direction (source error / EOF / silent, sink failing or not, in-flight dropped or delivered), both directions cut, invalid frame (6 kinds), or the local Multiplexor handle dropped. Judged per endpoint whose connection has ended: its task returned and no call is pending at quiescence; after a local drop on a healthy link every frame whose producing call returned before the drop is on the wire before Close, per producer in order. Non-trivial: the end cause fired after >20 steps and reached an endpoint."),
             Box::new(sweep),
             fam("backlog", 100_000, 2_000_000, gen_c08_backlog, OracleCfg::default(), Some(x_c08), nt_c08, "the endpoint whose transport fails (sink error with a live or silent source, invalid frame, source error) runs no acceptor: its accept backlog (1-2 slots) is full and further Connect frames of the peer are in flight or buffered when the failure hits; its parked reader, get_datagram and open calls must still resolve and its task must return."),
+            fam("drop-with-backlog", 30_000, 400_000, gen_c08_backlog_drop, OracleCfg::default(), Some(x_c08_backlog_drop), nt_c08, "the chaos workload plus a burst of 40-120 datagrams at the endpoint(s) about to drop their Multiplexor handle, on a link with room for 1-2 messages that takes 5-50 ms per message (back-pressure in poll_ready or, like tungstenite, in poll_flush), keepalive nowhere / everywhere / only at the endpoint that keeps its handle (interval 20-40 message times); one handle is dropped, or both within a few rounds. Judged: the general clauses (every task returns, nothing pending at quiescence) and, when one handle is dropped, the flush clauses: every datagram, byte, Finish and Reset accepted before the drop is on the wire before Close."),
             fam("keepalive-expiry", 40_000, 600_000, gen_c08_keepalive, OracleCfg::default(), Some(x_c08_keepalive), nt_c08, "the chaos workload with keepalive on at one or both endpoints (interval 200-1000 ms, timeout 1-2 intervals) on a link that goes silent at a seeded scheduling round: one or both directions swallow what is sent from then on, no operation of the transport fails. Every endpoint with keepalive on must end (its pings or the pongs to them are lost), and from then on the general clauses apply: its task returned, no call pending at quiescence, reads drain then end, writes fail. Non-trivial as in chaos."),
         ],
-        vec!["late-call-after-end", "end-with-pending-operations", "end-while-writer-parked", "end-while-open-pending", "end-while-bind-pending", "drop-with-queued-frames", "silent-link-under-keepalive", "ended-by-keepalive-expiry", "silent-link-around-orderly-end", "fault:cut", "fault:peer-close", "fault:garbage", "fault:drop-mux"],
+        vec!["late-call-after-end", "end-with-pending-operations", "end-while-writer-parked", "end-while-open-pending", "end-while-bind-pending", "drop-with-queued-frames", "silent-link-under-keepalive", "ended-by-keepalive-expiry", "silent-link-around-orderly-end", "drop-with-long-backlog", "both-handles-dropped-with-backlog", "drop-with-long-backlog-under-keepalive", "drop-with-long-backlog", "both-handles-dropped-with-backlog", "drop-with-long-backlog-under-keepalive", "fault:cut", "fault:peer-close", "fault:garbage", "fault:drop-mux"],
     )
 }
 use crate::link::{Stage, Wire};
